@@ -455,14 +455,14 @@ theorem idref_mlaws (ab : Bool) (c : Ident.IdCtx) (hwf : c.WF) (bases : List Ide
   have key : ∀ {hints s i}, Ident.storeIdWith ab c bases pmJ hints s = .ok i →
       (58 : UInt8) ∉ i.mod ∧ Ident.storeIdWith ab c bases pmJ Generated.LYD_HINT_DATA (Ident.canonId i) = .ok i := by
     intro hints s i h
-    obtain ⟨_, _, _, _, ⟨df, hdf, hid⟩, _⟩ := (Ident.storeIdWith_ok_iff hwf ab bases pmJ hints s i).mp h
+    obtain ⟨_, _, _, _, ⟨df, hdf, hid⟩, _, _⟩ := (Ident.storeIdWith_ok_iff hwf ab bases pmJ hints s i).mp h
     obtain ⟨h1, h2, h3⟩ := hj df hdf
     rw [hid] at h1 h2 h3
     refine ⟨h1, ?_⟩
     rw [Ident.storeIdWith_ok_iff hwf] at h ⊢
-    obtain ⟨_, hne, _, hname, hdef, hder⟩ := h
+    obtain ⟨_, hne, _, hname, hdef, hnd, hder⟩ := h
     rw [Ident.splitPrefix_canon h1]
-    refine ⟨by decide, ?_, ?_, rfl, hdef, hder⟩
+    refine ⟨by decide, ?_, ?_, rfl, hdef, hnd, hder⟩
     · rw [hname]; exact hne
     · simp only [Ident.resolve]
       have : i.mod.isEmpty = false := by
